@@ -212,3 +212,6 @@ PLANS["C19"]["required_facts"] += ["loop-fatal-exit", "loop-stopped", "loop-non-
 PLANS["C20"] = dict(kind="func", stages=[LOOP_STAGE], also_ctl=PLANS["C20"], rule=PLANS["C20"]["rule"] + "; plus the controller's own RunForever loop driven over a two-group world "
                     "(fatal condition / non-fatal failure / stop signal at every scan index)", required_facts=["loop-fatal-exit", "loop-stopped", "loop-non-fatal-failure-survived"],
                     assumptions=COMMON_ASSUMPTIONS)
+
+PLANS["C03"]["proofs"] = True   # TaintClampKeepsMinimum etc. (ArithLemmas.tla, TLAPS) for unbounded node counts
+PLANS["C04"]["proofs"] = True   # CloudTargetWithinBound, ClampLandsOnBound, NoHeadroomNoRequest
